@@ -448,6 +448,15 @@ class Fold(ast.NodeTransformer):
                 if f.id == 'list':
                     return self.hit(self.visit(ast.ListComp(elt=elt, generators=gen)), node)
                 return self.hit(ast.Call(func=f, args=[self.visit(ast.GeneratorExp(elt=elt, generators=gen))], keywords=[]), node)
+            if f.id == 'list' and len(node.args) == 1 and not node.keywords:
+                a0 = node.args[0]
+                if isinstance(a0, ast.GeneratorExp):
+                    return self.hit(ast.ListComp(elt=a0.elt, generators=a0.generators), node)
+                if isinstance(a0, ast.ListComp) or (isinstance(a0, ast.Call) and isinstance(a0.func, ast.Name) and a0.func.id in ('list', 'sorted') and not any(isinstance(x, ast.Starred) for x in a0.args)):
+                    return self.hit(a0, node)           # a copy of a list nobody else holds
+            if f.id == 'tuple' and len(node.args) == 1 and not node.keywords and isinstance(node.args[0], ast.Call) and isinstance(node.args[0].func, ast.Name) \
+                    and node.args[0].func.id in ('list', 'tuple') and len(node.args[0].args) == 1 and not node.args[0].keywords and not isinstance(node.args[0].args[0], ast.Starred):
+                return self.hit(ast.Call(func=f, args=[node.args[0].args[0]], keywords=[]), node)
             if f.id == 'bool' and len(node.args) == 1 and not node.keywords and isinstance(node.args[0], (ast.BoolOp, ast.Compare)) and self._boolish(node.args[0]):
                 return self.hit(node.args[0], node)
         if isinstance(f, ast.Attribute) and f.attr == 'get' and isinstance(f.value, ast.Dict) and simple and 1 <= len(node.args) <= 2 and not node.keywords:
@@ -868,6 +877,65 @@ def _remove_stmt(fn, stmt):
     D().visit(fn)
 
 
+def _seq_use_ok(info, par, ld, n):
+    """the load `ld` of a local bound to an n-element tuple / list literal stands in an element-wise position"""
+    if isinstance(par, ast.Subscript) and par.value is ld and isinstance(par.ctx, ast.Load) and (_const_key(par.slice) or ('', 0))[0] == 'int' \
+            and -n <= _const_key(par.slice)[1] < n:
+        return True
+    if isinstance(par, ast.Starred) and isinstance(info.parents.get(id(par)), ast.Call):
+        return True
+    if isinstance(par, ast.Assign) and par.value is ld and len(par.targets) == 1 and isinstance(par.targets[0], (ast.Tuple, ast.List)) \
+            and len(par.targets[0].elts) == n and not any(isinstance(x, ast.Starred) for x in par.targets[0].elts):
+        return True
+    if isinstance(par, (ast.For, ast.comprehension)) and par.iter is ld:
+        return True
+    if isinstance(par, ast.Call) and isinstance(par.func, ast.Name) and par.func.id in ('len', 'zip', 'enumerate', 'reversed') and ld in par.args:
+        return True
+    if isinstance(par, ast.Call) and isinstance(par.func, ast.Name) and par.func.id == 'map' and ld in par.args[1:]:
+        return True
+    return False
+
+
+def _split_impure_packs(fn):
+    """x = [E1, E2] with effectful elements, used only element-wise   ->   x__0 = E1 ; x__1 = E2 ; x = [x__0, x__1]   (then the pack rule applies)"""
+    info = _FnInfo(fn)
+    for asg in [n for n in ast.walk(fn) if isinstance(n, ast.Assign)]:
+        if len(asg.targets) != 1 or not isinstance(asg.targets[0], ast.Name) or not isinstance(asg.value, (ast.Tuple, ast.List)):
+            continue
+        name, val = asg.targets[0].id, asg.value
+        if not info.single(name) or not val.elts or any(isinstance(x, ast.Starred) for x in val.elts) or all(_pure(x) for x in val.elts):
+            continue
+        at = info.order.get(id(asg))
+        if at is None or info.loops.get(id(asg), True):
+            continue
+        loads = info.loads(name)
+        if not loads or not all(info.order.get(info.owner.get(id(ld)), -1) > at and _seq_use_ok(info, info.parents.get(id(ld)), ld, len(val.elts)) for ld in loads):
+            continue
+        existing = {n.id for n in ast.walk(fn) if isinstance(n, ast.Name)} | info.params
+        names = ['%s__%d' % (name, i) for i in range(len(val.elts))]
+        if any(x in existing for x in names):
+            continue
+        new = []
+        for nm, e in zip(names, val.elts):
+            a = ast.copy_location(ast.Assign(targets=[ast.Name(id=nm, ctx=ast.Store())], value=e), asg)
+            new.append(a)
+        asg.value = ast.copy_location(type(val)(elts=[ast.Name(id=nm, ctx=ast.Load()) for nm in names], ctx=ast.Load()), val)
+        for n in ast.walk(fn):
+            for fld in ('body', 'orelse', 'finalbody'):
+                v = getattr(n, fld, None)
+                if isinstance(v, list) and any(x is asg for x in v):
+                    i = [j for j, x in enumerate(v) if x is asg][0]
+                    v[i:i] = new
+            if isinstance(n, ast.Try):
+                for h in n.handlers:
+                    if any(x is asg for x in h.body):
+                        i = [j for j, x in enumerate(h.body) if x is asg][0]
+                        h.body[i:i] = new
+        ast.fix_missing_locations(fn)
+        return True
+    return False
+
+
 def _propagate_locals(fn, ctx):
     """pack / alias / partial / lambda: a local bound exactly once to an aggregate literal or a callable expression, used in positions where the
     literal (or the callable) can stand in for the name"""
@@ -952,17 +1020,7 @@ def _propagate_locals(fn, ctx):
                 continue
             par = info.parents.get(id(ld))
             if kind == 'seq':
-                if isinstance(par, ast.Subscript) and par.value is ld and isinstance(par.ctx, ast.Load) and (_const_key(par.slice) or ('', 0))[0] == 'int' \
-                        and -len(val.elts) <= _const_key(par.slice)[1] < len(val.elts):
-                    plan.append(ld)
-                elif isinstance(par, ast.Starred) and isinstance(info.parents.get(id(par)), ast.Call):
-                    plan.append(ld)
-                elif isinstance(par, ast.Assign) and par.value is ld and len(par.targets) == 1 and isinstance(par.targets[0], (ast.Tuple, ast.List)) \
-                        and len(par.targets[0].elts) == len(val.elts) and not any(isinstance(x, ast.Starred) for x in par.targets[0].elts):
-                    plan.append(ld)
-                elif isinstance(par, (ast.For, ast.comprehension)) and par.iter is ld:
-                    plan.append(ld)
-                elif isinstance(par, ast.Call) and isinstance(par.func, ast.Name) and par.func.id in ('len', 'zip', 'enumerate', 'reversed') and ld in par.args:
+                if _seq_use_ok(info, par, ld, len(val.elts)):
                     plan.append(ld)
                 else:
                     rest += 1
@@ -1199,10 +1257,19 @@ _RECORDS = {}
 def _record_classes(tree):
     """record classes of this module: NamedTuple / @dataclass classes with annotated fields only, and namedtuple(...) factories -> {name: (fields, defaults, kind)}"""
     out = {}
+    alias = {}
+    for n in ast.walk(tree):
+        if isinstance(n, ast.ImportFrom):
+            for a in n.names:
+                alias[a.asname or a.name] = a.name
+
+    def last(e):
+        t = ast.unparse(e).split('.')[-1]
+        return alias.get(t, t) if isinstance(e, ast.Name) else t
     for n in tree.body:
         if isinstance(n, ast.ClassDef):
-            is_nt = any(ast.unparse(b).split('.')[-1] == 'NamedTuple' for b in n.bases)
-            is_dc = any(ast.unparse(d.func if isinstance(d, ast.Call) else d).split('.')[-1] == 'dataclass' for d in n.decorator_list)
+            is_nt = any(last(b) == 'NamedTuple' for b in n.bases)
+            is_dc = any(last(d.func if isinstance(d, ast.Call) else d) == 'dataclass' for d in n.decorator_list)
             if not (is_nt or is_dc) or (is_nt and len(n.bases) != 1) or (is_dc and (n.bases or len(n.decorator_list) != 1)):
                 continue
             fields, defaults, ok = [], {}, True
@@ -1222,7 +1289,7 @@ def _record_classes(tree):
             if ok and fields:
                 out[n.name] = (fields, defaults, 'tuple' if is_nt else 'object')
         elif isinstance(n, ast.Assign) and len(n.targets) == 1 and isinstance(n.targets[0], ast.Name) and isinstance(n.value, ast.Call) \
-                and ast.unparse(n.value.func).split('.')[-1] == 'namedtuple' and len(n.value.args) == 2 and not n.value.keywords:
+                and last(n.value.func) == 'namedtuple' and len(n.value.args) == 2 and not n.value.keywords:
             spec = n.value.args[1]
             fields = None
             if isinstance(spec, ast.Constant) and isinstance(spec.value, str):
@@ -1247,6 +1314,14 @@ def _record_objects(fn):
     if not _RECORDS:
         return False
     info = _FnInfo(fn)
+    for asg in [n for n in ast.walk(fn) if isinstance(n, ast.Assign)]:
+        val = asg.value
+        if len(asg.targets) == 1 and isinstance(asg.targets[0], (ast.Tuple, ast.List)) and isinstance(val, ast.Call) and isinstance(val.func, ast.Name) \
+                and val.func.id in _RECORDS and _RECORDS[val.func.id][2] == 'tuple' and val.func.id not in info.counts and val.func.id not in info.params \
+                and not val.keywords and not any(isinstance(a, ast.Starred) for a in val.args) and len(val.args) == len(_RECORDS[val.func.id][0]):
+            asg.value = ast.copy_location(ast.Tuple(elts=list(val.args), ctx=ast.Load()), val)
+            ast.fix_missing_locations(asg)
+            return True
     for asg in [n for n in ast.walk(fn) if isinstance(n, ast.Assign)]:
         if len(asg.targets) != 1 or not isinstance(asg.targets[0], ast.Name):
             continue
@@ -1285,6 +1360,7 @@ def _record_objects(fn):
         ok = True
         repl = {}
         unpacks = []
+        slices = {}
         for o in occ:
             par = info.parents.get(id(o))
             if info.order.get(info.owner.get(id(o)), -1) <= info.order[id(asg)] and id(o) not in nested:
@@ -1301,6 +1377,13 @@ def _record_objects(fn):
             elif kind == 'tuple' and isinstance(par, ast.Assign) and par.value is o and len(par.targets) == 1 and isinstance(par.targets[0], (ast.Tuple, ast.List)) \
                     and len(par.targets[0].elts) == len(fields) and not any(isinstance(e, ast.Starred) for e in par.targets[0].elts):
                 unpacks.append(o)
+            elif kind == 'tuple' and isinstance(par, ast.Subscript) and par.value is o and isinstance(par.ctx, ast.Load) and isinstance(par.slice, ast.Slice) \
+                    and all(b is None or (_const_key(b) is not None and _const_key(b)[0] == 'int') for b in (par.slice.lower, par.slice.upper, par.slice.step)):
+                sl = slice(*[None if b is None else _const_key(b)[1] for b in (par.slice.lower, par.slice.upper, par.slice.step)])
+                if sl.step == 0:
+                    ok = False
+                    break
+                slices[id(par)] = fields[sl]
             else:
                 ok = False
                 break
@@ -1324,6 +1407,8 @@ def _record_objects(fn):
             def visit_Subscript(self, n):
                 if id(n) in repl:
                     return ast.copy_location(ast.Name(id=local(repl[id(n)]), ctx=ast.Load()), n)
+                if id(n) in slices:
+                    return ast.copy_location(ast.Tuple(elts=[ast.Name(id=local(f), ctx=ast.Load()) for f in slices[id(n)]], ctx=ast.Load()), n)
                 return self.generic_visit(n)
 
             def visit_Name(self, n):
@@ -2003,6 +2088,67 @@ def _local_closures(fn, inliner, cls):
     return False
 
 
+def _generated_lists(fn):
+    """lists built by a converted private generator (names __out*):
+         X = [] ; X.extend(E)            ->  X = list(E)
+         X = E ; <next statement reads X once, outside any inner loop / comprehension / lambda>   ->  E substituted (the list is fresh and has no other holder)"""
+    info = _FnInfo(fn)
+    for n in ast.walk(fn):
+        for fld in ('body', 'orelse', 'finalbody'):
+            blk = getattr(n, fld, None)
+            if not (isinstance(blk, list) and blk and isinstance(blk[0], ast.stmt)):
+                continue
+            for i in range(len(blk) - 1):
+                a, b = blk[i], blk[i + 1]
+                if not (isinstance(a, ast.Assign) and len(a.targets) == 1 and isinstance(a.targets[0], ast.Name) and a.targets[0].id.startswith('__out')):
+                    continue
+                t = a.targets[0].id
+                if info.counts.get(t, 0) != 1 or t in info.params:
+                    continue
+                if isinstance(a.value, ast.List) and not a.value.elts and isinstance(b, ast.Expr) and isinstance(b.value, ast.Call) and isinstance(b.value.func, ast.Attribute) \
+                        and isinstance(b.value.func.value, ast.Name) and b.value.func.value.id == t and b.value.func.attr == 'extend' and len(b.value.args) == 1 and not b.value.keywords \
+                        and not any(isinstance(x, ast.Name) and x.id == t for x in ast.walk(b.value.args[0])):
+                    a.value = ast.Call(func=ast.Name(id='list', ctx=ast.Load()), args=[b.value.args[0]], keywords=[])
+                    del blk[i + 1]
+                    ast.fix_missing_locations(fn)
+                    return True
+                loads = info.loads(t)
+                if len(loads) != 1 or isinstance(a.value, ast.List) and not a.value.elts:
+                    continue
+                use = loads[0]
+                if not any(x is use for x in ast.walk(b)):
+                    continue
+                # the single read is evaluated exactly once by statement b: not inside a nested body, a comprehension element / condition, or a lambda
+                ok = True
+                if isinstance(b, (ast.For, ast.While, ast.If, ast.With, ast.Try, ast.FunctionDef, ast.ClassDef)):
+                    hdr = b.iter if isinstance(b, ast.For) else (b.test if isinstance(b, (ast.If,)) else None)
+                    if hdr is None or not any(x is use for x in ast.walk(hdr)):
+                        ok = False
+                p_ = info.parents.get(id(use))
+                child = use
+                while ok and p_ is not None and p_ is not b:
+                    if isinstance(p_, ast.Lambda):
+                        ok = False
+                    elif isinstance(p_, (ast.ListComp, ast.SetComp, ast.GeneratorExp, ast.DictComp)) and p_.generators[0] is not child:
+                        ok = False
+                    elif isinstance(p_, ast.comprehension) and p_.iter is not child:
+                        ok = False
+                    child = p_
+                    p_ = info.parents.get(id(p_))
+                if not ok:
+                    continue
+                val = a.value
+
+                class Rp(ast.NodeTransformer):
+                    def visit_Name(self, x):
+                        return val if x is use else x
+                blk[i + 1] = Rp().visit(b)
+                del blk[i]
+                ast.fix_missing_locations(fn)
+                return True
+    return False
+
+
 def _forward_temps(fn):
     """t = E ; TARGET = t      ->  TARGET = E        (adjacent statements; t bound once and read once - by that copy; TARGET may be a global, an
     attribute or a subscript whose own sub-expressions are effect free)"""
@@ -2140,6 +2286,10 @@ def simplify_function(fn, ctx, inliner, cls):
         elif _coalesce_copies(fn):
             changed = True
         elif _forward_temps(fn):
+            changed = True
+        elif _generated_lists(fn):
+            changed = True
+        elif _split_impure_packs(fn):
             changed = True
         if not changed:
             break
